@@ -137,7 +137,7 @@ class Ctx:
         """replay counterexamples on the real (uninstrumented, JIT) code; classify"""
         if not cexs:
             return
-        jobs = [{'mod': replay_mod, 'fn': replay_fn, 'mode': 'plain', 'nojit': replay_mod.endswith('e3jobs'), 'args': {'cex': cx}} for cx in cexs]
+        jobs = [{'mod': replay_mod, 'fn': replay_fn, 'mode': 'plain', 'nojit': replay_mod.split('.')[-1] in ('e3jobs', 'c05', 'c16', 'c17', 'c19'), 'args': {'cex': cx}} for cx in cexs]
         for r in self.run_jobs(jobs, timeout, workers=min(8, NCPU)):
             cx = r['job']['args']['cex']
             name = '%s/%s' % (cx.get('harness'), cx.get('name'))
